@@ -1,5 +1,6 @@
 """C03 — physical bounds of every battery model (ideal; two-stage continuous / stepwise; noise)."""
 import fractions
+import math
 import time
 
 from harness import batt, batt_sim
@@ -8,7 +9,7 @@ from harness.batt import F
 PID = "C03"
 GEN_GROUPS = ["Battery", "BatteryGuard", "Evse"]
 TARGETS = ["coq/Props/C03.vo", "coq/Model/Battery.vo", "coq/Model/BatteryStation.vo"]
-CASES = {"quick": 700, "thorough": 12000}
+CASES = {"quick": 640, "thorough": 12000}
 CORR_HEADER = batt.CORR_HEADER
 CHECK_FN = "check_batt"
 SHARD = 120
@@ -20,7 +21,10 @@ RULE = ("battery class (ideal / two-stage continuous / two-stage stepwise) x noi
         "constructions (init > capacity, transition_soc outside [0,1), unknown charge_calculation, charge_calculation "
         "reassigned after construction); non-trivial = distinct (battery, operation list); a case is cut before the "
         "first operation whose `soc < transition_soc` test (stepwise + noise: the only discontinuous decision) is "
-        "within 1e-9 of flipping, and skipped as ambiguous if that is the first operation; stream `sim`: real Simulator runs "
+        "within 1e-9 of flipping, and skipped as ambiguous if that is the first operation; ~10% of the operations are JSON "
+        "round trips of the object, 20% of the cases use numpy / int / float argument types, ~6% are pairs of live objects "
+        "differing in one constructor argument and driven alternately, boundaries also at +-1 ulp, periods incl. 7, 9, 13, "
+        "45, 90, 0.7, 2.5 min; stream `sim`: real Simulator runs "
         "(1-3 stations with EVSE / DeadbandEVSE / FiniteRatesEVSE incl. the AeroVironment and ClipperCreek rate tables, the "
         "get_evse_by_type factory and custom tables; sequential sessions with batteries of every class started empty .. full; "
         "schedules of accepted pilots with 0 A pauses, on/off and round-robin time-sharing while an EV is connected; "
@@ -36,9 +40,9 @@ OFFS = [0.0, 0.0, 1e-12, 1e-9, 1e-6, 1e-3, 0.05]
 CAPS = [8, 24, 40, 50, 60, 64, 85, 100]
 MAXPS = [1.44, 3.3, 6.656, 7, 7.68, 11.5, 16, 50]
 TSS = [0, 0.25, 0.5, 0.75, 0.8, 0.8, 0.9, 0.99]
-NLS = [0, 0, 0, 0.1, 1, 1, 5]
+NLS = [0, 0, 0, 0.1, 1, 1, 5, -1]          # a negative noise level is legal and means 'off'
 VS = [120, 208, 208, 240, 277, 400]
-TS_ = [1, 5, 5, 15, 60, 0.5]
+TS_ = [1, 5, 5, 15, 60, 0.5, 7, 9, 2.5, 0.7, 45, 90, 13]      # incl. periods that do not divide an hour
 
 
 def rand_spec(rng, kind=None):
@@ -110,7 +114,10 @@ def rand_ops(rng, spec, V, T, first_pilot):
             x = rng.choice([None, None, spec["cap"] / 2, spec["cap"], spec["cap"] * 1.0000001, spec["cap"] + 5, 0])
             ops.append(("reset", x))
             continue
-        if t < 0.14:
+        if i > 0 and t < 0.13:
+            ops.append(("json",))                      # the object is replaced by its JSON round trip mid-sequence
+            continue
+        if t < 0.20:
             badV, badT = rng.choice([(0, T), (-1, T), (V, 0), (V, -5), (0, 0)])
             ops.append(("charge", pilot, badV, badT, noise_for(rng, spec)))
             continue
@@ -149,17 +156,73 @@ def one_case(rng, spec=None):
             c = float(c)
         else:
             c = round(rng.uniform(0, spec["cap"]), 4)
+        if rng.random() < 0.12:                        # one ulp next to the boundary
+            c = math.nextafter(c, rng.choice([-math.inf, math.inf]))
         if c > spec["cap"] and rng.random() < 0.85:
             c = spec["cap"]
         if c < 0 and rng.random() < 0.7:
             c = 0.0
         spec["init"] = c
     ops = rand_ops(rng, spec, V, T, pilot)
+    if rng.random() < 0.2:
+        spec["dtype"] = rng.choice(DTYPES)             # same numbers as numpy scalars / python ints / floats
     return build(spec, ops)
 
 
-def build(spec, ops):
-    impl = batt.run_impl(spec, ops)
+DTYPES = ["np", "npf", "int", "float"]
+
+
+def pair_cases(rng):
+    """two live batteries driven alternately: B is A with ONE constructor argument changed (so that anything cached
+    under a key that omits it, or kept on the class / module, leaks from one to the other); both receive the same
+    calls.  Returns the two cases; each object's observations are compared with the model of that object alone."""
+    a = rand_spec(rng)
+    V, T = rng.choice(VS), rng.choice(TS_)
+    pilot = rand_pilot(rng, a, V)
+    if pilot < 0 or 0 < pilot < 0.05:
+        pilot = 32
+    a["init"] = round(rng.uniform(0, a["cap"]), 3) if rng.random() < 0.5 else float(rng.choice(boundary_charges(a, pilot, V, T)))
+    a["init"] = min(max(a["init"], 0.0), float(a["cap"]))
+    b = dict(a)
+    what = rng.choice(["maxP", "maxP", "cap", "init", "ts", "nl", "mode", "class"])
+    if what == "maxP":
+        b["maxP"] = a["maxP"] * rng.choice([0.5, 2, 3]) if rng.random() < 0.7 else rng.choice(MAXPS)
+    elif what == "cap":
+        b["cap"] = a["cap"] * 2
+    elif what == "init":
+        b["init"] = a["init"] / 2
+    elif what == "class":
+        b = dict(kind="ideal", cap=a["cap"], maxP=a["maxP"], init=a["init"]) if a["kind"] == "l2" else \
+            dict(a, kind="l2", nl=0, ts=0.8, mode="continuous")
+    elif a["kind"] == "l2":
+        if what == "ts":
+            b["ts"] = rng.choice([x for x in TSS if x != a["ts"]])
+        elif what == "nl":
+            b["nl"] = 0 if a["nl"] > 0 else 1
+        else:
+            b["mode"] = "stepwise" if a["mode"] == "continuous" else "continuous"
+    else:
+        b["maxP"] = a["maxP"] * 2
+    ops = [o for o in rand_ops(rng, a, V, T, pilot)]
+    if len(ops) < 2:
+        ops = ops + [("charge", pilot, V, T, noise_for(rng, a))]
+    order = [rng.choice([0, 1]) for _ in range(2 * len(ops))]
+    if rng.random() < 0.5:
+        a, b = b, a                                        # which of the two goes first / has the larger value
+    return build_pair(a, b, ops, order)
+
+
+def build_pair(a, b, ops, order):
+    ia, ib = batt.run_pair(a, ops, b, ops, order)
+    ca, cb = build(a, ops, ia, tag="pair"), build(b, ops, ib, tag="pair")
+    for c, which in ((ca, 0), (cb, 1)):
+        c["input"]["pair"] = dict(a=a, b=b, ops=[list(o) for o in ops], order=order, which=which)
+    return [ca, cb]
+
+
+def build(spec, ops, impl=None, tag=None):
+    if impl is None:
+        impl = batt.run_impl(spec, ops)
     if impl["ctor_err"] is not None:
         ops = []
     ops, impl, amb = batt.truncate_at_ambiguity(spec, ops, impl)
@@ -172,6 +235,10 @@ def build(spec, ops):
         kind += "/seq"
     else:
         kind += "/single"
+    if tag:
+        kind += "/" + tag
+    if spec.get("dtype"):
+        kind += "/dtype"
     return dict(input=dict(spec=spec, ops=[list(o) for o in ops]), impl=impl, coq=batt.case_coq(spec, ops, impl),
                 ambiguous=amb, kind=kind, sig=[spec, [list(o) for o in ops]], nontrivial=True)
 
@@ -179,6 +246,9 @@ def build(spec, ops):
 def gen_cases(rng, n, tier):
     cases = [build(dict(s), [tuple(o) for o in ops]) for s, ops in CORPUS]
     while len(cases) < n:
+        if rng.random() < 0.06:
+            cases.extend(c for c in pair_cases(rng) if batt.valid_for_model(c["input"]["spec"]))
+            continue
         c = one_case(rng)
         if not batt.valid_for_model(c["input"]["spec"]):
             continue
@@ -236,6 +306,29 @@ def monitor_sim(case):
         tol = REL * max(1.0, abs(p))
         if not (-tol <= r <= p + tol):
             return "station %d period %d: recorded rate %r outside [0, recorded pilot %r]" % (s, t, r, p)
+    # every other public view of the same quantities must tell the same story
+    v, sid = impl.get("views"), impl.get("sids", [None] * (s + 1))[s]
+    if v:
+        for t, (pil, rat) in enumerate(v["net"][:impl["periods"]]):
+            if pil[s] != impl["pilots"][s][t] or rat[s] != impl["rates"][s][t]:
+                return ("station %d period %d: network reports pilot %r / rate %r, the simulator recorded %r / %r"
+                        % (s, t, pil[s], rat[s], impl["pilots"][s][t], impl["rates"][s][t]))
+        if v["df_rates"][sid] != impl["rates"][s] or v["df_pilots"][sid] != impl["pilots"][s]:
+            return "station %s: charging_rates_as_df / pilot_signals_as_df column differs from the matrices' row %d" % (sid, s)
+        sim = case["input"]["sim"]
+        for t, applied, actual in v["iface"]:
+            for k, sess in enumerate(sim["sessions"]):
+                name = "sess%d" % k
+                if sess["station"] != s or name not in applied or name not in actual:
+                    continue
+                p, r = applied[name], actual[name]
+                if 1 <= t <= impl["periods"] and p != impl["pilots"][s][t - 1]:
+                    return "Interface.last_applied_pilot_signals[%s] at t=%d is %r, recorded pilot %r" % (name, t, p, impl["pilots"][s][t - 1])
+                if not (-REL <= r <= p + REL * max(1.0, abs(p))):
+                    return "Interface at t=%d: last actual rate %r of %s outside [0, last applied pilot %r]" % (t, r, name, p)
+    rr = impl.get("rerun")
+    if rr is not None and (rr["error"] is not None or not rr["same"]):
+        return "second simulation of the same EV objects after EV.reset() differs from the first (error %r)" % rr["error"]
     return None
 
 
@@ -260,7 +353,11 @@ def monitor(case):
     tainted = False      # a negative pilot was applied: the state may exceed capacity (outside the hypotheses)
     for k, (op, ob) in enumerate(zip(ops, impl["obs"])):
         tol = REL * max(1.0, abs(cap))
-        if op[0] == "reset":
+        if op[0] == "json":
+            if ob["err"] is not None or ob["charge"] != charge or ob["power"] != power:
+                return "op %d: JSON round trip changed the battery: %r, charge %r -> %r, power %r -> %r" % (
+                    k, ob["err"], charge, ob["charge"], power, ob["power"])
+        elif op[0] == "reset":
             x = op[1]
             if x is not None and x > cap:
                 if ob["err"] != "ValueError" or ob["charge"] != charge or ob["power"] != power:
@@ -302,6 +399,11 @@ def search(rng, budget_s, broken):
             r = monitor(c)
             if r:
                 return dict(case=c["input"], impl=c["impl"], why=r)
+        for _ in range(20):
+            for c in pair_cases(rng):
+                r = monitor(c)
+                if r:
+                    return dict(case=c["input"], impl=c["impl"], why=r)
         for c in sim_cases(rng, 10):
             r = monitor(c)
             if r:
@@ -317,6 +419,10 @@ def replay(w):
             if r:
                 return r
         return None
+    if inp.get("pair"):
+        pr = inp["pair"]
+        cs = build_pair(dict(pr["a"]), dict(pr["b"]), [tuple(o) for o in pr["ops"]], list(pr["order"]))
+        return monitor(cs[pr["which"]]) or monitor(cs[1 - pr["which"]])
     spec, ops = inp["spec"], [tuple(o) for o in inp["ops"]]
     c = build(dict(spec), ops)
     return monitor(c)
